@@ -137,6 +137,17 @@ func (w *walker) assign(x *ast.AssignStmt) {
 					w.fr.binds[o] = vals[i].fn
 				}
 			}
+			// x := <slice rooted at a parameter that refers to a field's memory>
+			if i < len(x.Rhs) && len(x.Lhs) == len(x.Rhs) && o != nil {
+				if tv, okT := info.Types[x.Rhs[i]]; okT && isRefType(tv.Type) {
+					if loc, okA := w.aliasRoot(x.Rhs[i], false); okA {
+						if _, isPkg := w.t.pkgVar(id); !isPkg {
+							w.fr.alias[o] = loc
+							continue
+						}
+					}
+				}
+			}
 			// p := &local  /  p := <pointer bound to a local>
 			if i < len(x.Rhs) && len(x.Lhs) == len(x.Rhs) && o != nil && isAddrOfLocalIn(w.t, x.Rhs[i], w.fr) {
 				w.fr.ptrLocal[o] = true
